@@ -372,7 +372,7 @@ from vf.core import Ctx, Violation
 from vf.checks import c03
 ctx = Ctx('C03', 'accept_iff_valid', {})
 out = os.environ['VF_FUZZ_OUT']
-state = {'n': 0, 'viol': None}
+state = {'n': 0, 'calls': 0, 'viol': None}
 @settings(database=None, deadline=None, suppress_health_check=list(HealthCheck))
 @given(c03.mutated_geometry())
 def prop(spec):
@@ -385,10 +385,11 @@ def prop(spec):
         raise
 def flush():
     with open(out, 'w') as fh:
-        json.dump({'execs': state['n'], 'evaluations': ctx.evaluations, 'distinct_nontrivial': len(ctx.nontrivial), 'violation': state['viol']}, fh, default=repr)
+        json.dump({'execs': state['calls'], 'valid_examples': state['n'], 'evaluations': ctx.evaluations, 'distinct_nontrivial': len(ctx.nontrivial), 'violation': state['viol']}, fh, default=repr)
 def one(data):
+    state['calls'] += 1
     prop.hypothesis.fuzz_one_input(data)
-    if state['n'] % 2000 == 0:
+    if state['calls'] % 1000 == 0:
         flush()
 atheris.Setup(sys.argv, one)
 try:
@@ -411,7 +412,7 @@ def post(tier, seed, failures):
     import tempfile
 
     info = {}
-    runs = int(os.environ.get("VF_FUZZ_RUNS", "150000"))
+    runs = int(os.environ.get("VF_FUZZ_RUNS", "60000"))
     for corpus_kind in ("empty", "seeded"):
         work = tempfile.mkdtemp(prefix="vf-c03-fuzz.")
         try:
@@ -426,13 +427,13 @@ def post(tier, seed, failures):
             with open(script, "w") as fh:
                 fh.write(FUZZ_CHILD)
             env = dict(os.environ, VF_HERE=here, VF_FUZZ_OUT=outp)
-            cmd = [sys.executable, script, corpus, f"-runs={runs}", f"-seed={seed}", "-max_len=2048", "-print_final_stats=0"]
+            cmd = [sys.executable, script, corpus, f"-runs={runs}", f"-seed={seed}", "-max_len=2048", "-len_control=0", "-print_final_stats=0"]
             r = subprocess.run(cmd, env=env, capture_output=True, text=True, cwd=work, timeout=1500)
             stats = {}
             if os.path.exists(outp):
                 with open(outp) as fh:
                     stats = json.load(fh)
-            info[corpus_kind] = {k: stats.get(k) for k in ("execs", "evaluations", "distinct_nontrivial")}
+            info[corpus_kind] = {k: stats.get(k) for k in ("execs", "valid_examples", "evaluations", "distinct_nontrivial")}
             info[corpus_kind]["exit"] = r.returncode
             if stats.get("violation"):
                 failures.append(stats["violation"])
